@@ -382,3 +382,75 @@ pub proof fn lemma_enc_injective(a: JVal, b: JVal)   // [C05]
     assert(enc(a) + Seq::<u8>::empty() =~= enc(b) + Seq::<u8>::empty());
     lemma_enc_prefix_free(a, b, Seq::<u8>::empty(), Seq::<u8>::empty());
 }
+
+// ---- canonical JSON contains no raw line feed (so the un-escaping before signing loses nothing) ----
+// assumed: serde_json escapes every control character inside a string token
+#[verifier::external_body]
+pub proof fn fact_esc_no_lf(s: Seq<char>)
+    ensures no_lf_byte(esc(s))
+{}
+pub proof fn lemma_no_lf_concat(a: Seq<u8>, b: Seq<u8>)
+    requires no_lf_byte(a), no_lf_byte(b)
+    ensures no_lf_byte(a + b)
+{
+    assert forall|i: int| 0 <= i < (a + b).len() implies #[trigger] (a + b)[i] != 0x0au8 by {
+        if i < a.len() { assert((a + b)[i] == a[i]); } else { assert((a + b)[i] == b[i - a.len()]); }
+    }
+}
+pub proof fn lemma_enc_no_lf(j: JVal)   // [C05]
+    ensures no_lf_byte(enc(j))
+    decreases j, 0int
+{
+    match j {
+        JVal::Int(n) => { fact_dec_int_shape(n); }
+        JVal::Str(s) => { fact_esc_no_lf(s); }
+        JVal::Arr(a) => {
+            lemma_elems_no_lf(a, a.len() as int);
+            lemma_no_lf_concat(seq![0x5bu8], enc_elems(a, a.len() as int));
+            lemma_no_lf_concat(seq![0x5bu8] + enc_elems(a, a.len() as int), seq![0x5du8]);
+        }
+        JVal::Obj(o) => {
+            lemma_members_no_lf(o, o.len() as int);
+            lemma_no_lf_concat(seq![0x7bu8], enc_members(o, o.len() as int));
+            lemma_no_lf_concat(seq![0x7bu8] + enc_members(o, o.len() as int), seq![0x7du8]);
+        }
+        _ => {}
+    }
+}
+pub proof fn lemma_elems_no_lf(a: Seq<JVal>, n: int)   // [C05]
+    ensures no_lf_byte(enc_elems(a, n))
+    decreases a, n
+{
+    if n <= 0 || n > a.len() {} else {
+        lemma_elems_no_lf(a, n - 1);
+        lemma_enc_no_lf(a[n - 1]);
+        let sep: Seq<u8> = if n == 1 { seq![] } else { seq![0x2cu8] };
+        lemma_no_lf_concat(enc_elems(a, n - 1), sep);
+        lemma_no_lf_concat(enc_elems(a, n - 1) + sep, enc(a[n - 1]));
+    }
+}
+pub proof fn lemma_members_no_lf(o: Seq<(Seq<char>, JVal)>, n: int)   // [C05]
+    ensures no_lf_byte(enc_members(o, n))
+    decreases o, n
+{
+    if n <= 0 || n > o.len() {} else {
+        lemma_members_no_lf(o, n - 1);
+        lemma_enc_no_lf(o[n - 1].1);
+        fact_esc_no_lf(o[n - 1].0);
+        let sep: Seq<u8> = if n == 1 { seq![] } else { seq![0x2cu8] };
+        lemma_no_lf_concat(enc_members(o, n - 1), sep);
+        lemma_no_lf_concat(enc_members(o, n - 1) + sep, esc(o[n - 1].0));
+        lemma_no_lf_concat(enc_members(o, n - 1) + sep + esc(o[n - 1].0), seq![0x3au8]);
+        lemma_no_lf_concat(enc_members(o, n - 1) + sep + esc(o[n - 1].0) + seq![0x3au8], enc(o[n - 1].1));
+    }
+}
+// C05, end to end over abstract JSON values: two documents whose values differ are signed over different bytes
+pub proof fn lemma_signed_text_injective(a: JVal, b: JVal)   // [C05]
+    requires vstd::utf8::valid_utf8(enc(a)), vstd::utf8::valid_utf8(enc(b)), signed_text(enc(a)) == signed_text(enc(b))
+    ensures a == b
+{
+    lemma_enc_no_lf(a);
+    lemma_enc_no_lf(b);
+    lemma_signed_text_injective_bytes(enc(a), enc(b));
+    lemma_enc_injective(a, b);
+}
